@@ -77,6 +77,10 @@ impl<A: AcceptableMasterList, C: Clock, F: Filter, R: Rng, S: PtpInstanceStateMu
                         .take(path_trace_ds.list.capacity())
                         .map(|ci| ClockIdentity(<[u8; 8]>::try_from(ci).unwrap()))
                         .collect();
+                } else {
+                    // the parent does not trace its path: nothing is known about it, in
+                    // particular not what an earlier parent reported
+                    path_trace_ds.list.clear();
                 }
 
                 false
